@@ -68,7 +68,10 @@ Tags(r) ==
                                                      \* where the segment meets the boundary of the pierced shape at a neighbour's vertex (the displayed
                                                      \* route may have merged collinear points, so these need not be points of the route)
                                                      X == {v \in NV : OnSeg(a, b, v) /\ (OnV(v) \/ OnH(v)) /\ \A j \in 1..Len(P) : P[j] # v}
-                                                 IN  Cardinality(X) >= 2 /\ \A v \in X : OnV(v) /\ ~OnH(v)
+                                                     Owners(v) == {i \in DOMAIN r.polys \ {h[2]} : \E j \in 1..Len(r.polys[i]) : r.polys[i][j] = v}
+                                                 \* (each of those points is a corner of exactly one neighbour: where two neighbours share a corner on the side
+                                                 \*  of a third shape the unchanged library lets the segment through whatever the orientation -- F30)
+                                                 IN  Cardinality(X) >= 2 /\ \A v \in X : OnV(v) /\ ~OnH(v) /\ Cardinality(Owners(v)) = 1
                          THEN {"through-shape:crossing-only-at-shape-vertices:between-neighbour-vertices-inside-its-vertical-sides"}
                          \* the case decided by Router::newBlockingShape alone: both ends of the pierced segment are vertices of other shapes lying on the
                          \* boundary of the pierced shape, and the pierced shape was added after those shapes
